@@ -25,7 +25,7 @@ Definition lax_mode := {| m_strict := false; m_nocrlf := false |}.
 Definition strict_mode := {| m_strict := true; m_nocrlf := true |}.
 
 (* ===== the ONE line that follows /repo: aead.go:122 uses base64.RawURLEncoding.DecodeString ===== *)
-Definition repo_mode : dec_mode := lax_mode.
+Definition repo_mode : dec_mode := strict_mode.
 
 (* the first step of Unmarshal *)
 Definition decode_value (m : dec_mode) (s : str) : option str :=
